@@ -225,7 +225,7 @@ class ModelBackend(Backend):
     def mkdir(self, rel, mtime=DEFAULT_MTIME):
         self.world.mkdirs(self.p(rel), mtime)
 
-    def mkfile(self, rel, cid, size=5, mtime=DEFAULT_MTIME):
+    def mkfile(self, rel, cid, size=5, mtime=DEFAULT_MTIME, layout="dense"):
         return self.world.add_file(self.p(rel), cid, size, mtime)
 
     def write_text(self, rel, text):
@@ -299,6 +299,10 @@ class ModelBackend(Backend):
             return SymBool(z3.And(_z(t) == _z(t_file), _zb(file_repeated)))
 
         self.world.zone = W.Zone(std_off, dst_off, isdst, second)
+
+    def set_zone_history(self, name, std_now, t_past, off_past):
+        """a zone without daylight saving today whose rules were different at instant t_past (e.g. Europe/Moscow before 2014)"""
+        self.world.zone = self.W.Zone(std_now, std_now, past={t_past: off_past})
 
     def now_window(self):
         t = getattr(self, "last_run_now", self.world.now)
@@ -629,6 +633,23 @@ def _plain(s):
 
 # =============================================================================================== real
 CONTENT_SEED = [0]
+HOLE = 256 * 1024
+
+
+def _hole_ranges(size, layout):
+    """block-aligned byte ranges that are never written (the file system keeps them as holes)"""
+    if layout == "dense" or size < 8192:
+        return []
+    al = lambda x: x // 4096 * 4096
+    if layout == "hole-start":
+        return [(0, al(min(HOLE, size - 4096)))]
+    if layout == "hole-middle":
+        a = al(size // 2)
+        return [(a, al(min(a + HOLE, size - 1)))] if al(min(a + HOLE, size - 1)) > a else []
+    if layout == "hole-end":
+        a = al(max(4096, size - HOLE))
+        return [(a, size)] if size > a else []
+    raise ValueError(layout)
 
 
 def real_content(cid, size):
@@ -752,11 +773,24 @@ class RealBackend(Backend):
         os.makedirs(self.p(rel), exist_ok=True)
         self._stamp_dirs(self.p(rel))
 
-    def mkfile(self, rel, cid, size=5, mtime=DEFAULT_MTIME):
+    def mkfile(self, rel, cid, size=5, mtime=DEFAULT_MTIME, layout="dense"):
+        """layout: how the bytes are laid out on the medium - dense, or sparse with a 256 KiB hole (which reads as zeros) at the
+        start / in the middle / at the end. The content of the file is a function of (cid, size, layout) all the same."""
         path = self.p(rel)
         os.makedirs(os.path.dirname(path), exist_ok=True)
+        data = real_content(cid, size)
+        holes = _hole_ranges(size, layout)
         with open(path, "wb") as f:
-            f.write(real_content(cid, size))
+            if not holes:
+                f.write(data)
+            else:
+                f.truncate(size)
+                pos = 0
+                for a, e in holes + [(size, size)]:
+                    if a > pos:
+                        f.seek(pos)
+                        f.write(data[pos:a])
+                    pos = e
         os.utime(path, (mtime, mtime))
         self._stamp_dirs(os.path.dirname(path))
 
@@ -844,6 +878,11 @@ class RealBackend(Backend):
         self.fixed_offset = seconds  # freezegun does not look at TZ for now(): it is told the offset explicitly
         os.environ["TZ"] = self.tz
         time.tzset()
+
+    def set_zone_history(self, name, std_now, t_past, off_past):
+        """the real zone database entry `name`, real clock"""
+        self.clock = "real"
+        self.tz = name
 
     def now_window(self):
         """(earliest, latest) instant 'now' may denote for the last command (real clock: the command's run time)"""
